@@ -11,7 +11,7 @@ import numpy as np
 CHARS = list('abcdefghij ')
 
 
-def build_stub_net(path_cpu, n_chars, height=32, seed=0, gain=0.6, pad_class=-1):
+def build_stub_net(path_cpu, n_chars, height=32, seed=0, gain=0.6, pad_class=-1, global_ctx=0.0, with_ids=False):
     import torch
     from torch import nn
 
@@ -28,11 +28,16 @@ def build_stub_net(path_cpu, n_chars, height=32, seed=0, gain=0.6, pad_class=-1)
                 self.conv.bias.copy_(b)
             self.pool = nn.AvgPool1d(4)
             self.alternate = (pad_class == -2)   # C04: padding answers with two characters in turn (frame parity)
+            self.global_ctx = float(global_ctx)  # C08: a network with global context: its answer depends on the padded width of the batch
 
         def forward(self, x):
             y = self.conv(x)          # N, C, 1, W
             y = y.squeeze(2)
             y = self.pool(y)          # N, C, W/4
+            if self.global_ctx != 0.0:
+                ctxb = torch.zeros_like(y)
+                ctxb[:, 0, :] = self.global_ctx * float(y.shape[2])
+                y = y + ctxb
             if self.alternate:
                 par = (torch.arange(y.shape[2]) % 2).to(y.dtype)
                 bump = torch.zeros_like(y)
@@ -41,27 +46,41 @@ def build_stub_net(path_cpu, n_chars, height=32, seed=0, gain=0.6, pad_class=-1)
                 y = y + bump
             return y
 
-    net = Net().eval()
+    class NetIds(nn.Module):
+        # a network with writer / style embeddings: forward(x, ids) - the id of the batch row shifts the answer
+        def __init__(self):
+            super().__init__()
+            self.inner = Net()
+
+        def forward(self, x, ids):
+            y = self.inner(x)
+            bump = torch.zeros_like(y)
+            bump[:, 1, :] = 3.0 * ids.to(y.dtype).unsqueeze(1)
+            return y + bump
+
+    net = (NetIds() if with_ids else Net()).eval()
     scripted = torch.jit.script(net)
     scripted.save(path_cpu)
     return net
 
 
-def write_ocr_json(dirname, n_chars=None, height=32, seed=0, gain=0.6, pad_class=-1, chars=None):
+def write_ocr_json(dirname, n_chars=None, height=32, seed=0, gain=0.6, pad_class=-1, chars=None, global_ctx=0.0, embed_id=None):
     chars = list(chars) if chars is not None else (CHARS if n_chars is None else CHARS[:n_chars])
     ck = os.path.join(dirname, 'stub.pt')
-    build_stub_net(ck + '.cpu', len(chars), height=height, seed=seed, gain=gain, pad_class=pad_class)
+    build_stub_net(ck + '.cpu', len(chars), height=height, seed=seed, gain=gain, pad_class=pad_class, global_ctx=global_ctx, with_ids=embed_id is not None)
     cfg = dict(line_px_height=height, line_vertical_scale=1.0, checkpoint='stub.pt', characters=chars, net_name='stub')
+    if embed_id is not None:
+        cfg['embed_id'] = embed_id
     p = os.path.join(dirname, 'ocr.json')
     with open(p, 'w', encoding='utf8') as f:
         json.dump(cfg, f)
     return p, chars
 
 
-def make_engine(dirname, batch_size=8, height=32, seed=0, gain=0.6, pad_class=-1, chars=None):
+def make_engine(dirname, batch_size=8, height=32, seed=0, gain=0.6, pad_class=-1, chars=None, global_ctx=0.0, embed_id=None):
     import torch
     from pero_ocr.ocr_engine.pytorch_ocr_engine import PytorchEngineLineOCR
-    p, chars = write_ocr_json(dirname, height=height, seed=seed, gain=gain, pad_class=pad_class, chars=chars)
+    p, chars = write_ocr_json(dirname, height=height, seed=seed, gain=gain, pad_class=pad_class, chars=chars, global_ctx=global_ctx, embed_id=embed_id)
     return PytorchEngineLineOCR(p, torch.device('cpu'), batch_size=batch_size), chars
 
 
